@@ -303,6 +303,11 @@ class Node:
             return ""
         return "".join(k.all_text() for k in self.kids)
 
+    def spaced_text(self) -> str:                      # text nodes separated, for word-level comparisons
+        if self.tag == "#":
+            return self.text
+        return " ".join(k.spaced_text() for k in self.kids)
+
     def find_all(self, pred) -> List["Node"]:          # pre-order, does not descend into matches
         res: List[Node] = []
         for k in self.kids:
@@ -902,7 +907,7 @@ def plan(ctx: Ctx) -> List[Dict[str, Any]]:
             dict(name="structure<=3", actions=3, depth=3, fields=2, kinds=rep, blocks=ALL_BLOCKS, free=False, sample=None),
             dict(name="fields", actions=2, depth=1, fields=2, kinds=ALL_KINDS, blocks=["para"], free=False, sample=None),
             dict(name="structure=4", actions=4, depth=3, fields=1, kinds=["param", "note"], blocks=ALL_BLOCKS, free=False,
-                 sample=2500),
+                 sample=2000),
         ]
     return [
         dict(name="structure<=4", actions=4, depth=3, fields=2, kinds=rep, blocks=ALL_BLOCKS, free=False, sample=None),
@@ -935,7 +940,8 @@ def run(ctx: Ctx) -> int:
     nontrivial = 0
     examples_parse: List[Any] = []
     examples_reported: List[Any] = []
-    first_cov = None
+    usage = {a: 0 for a in ("AddPara", "OpenList", "AddItem", "CloseList(fused)", "AddLiteral", "AddDoctest", "AddCode",
+                            "OpenSection", "AddField")}
     all_exhaustive = True
     for pl in plan(ctx):
         cfg = CFG.format(actions=pl["actions"], depth=pl["depth"], fields=pl["fields"], kinds=tla_set(pl["kinds"]),
@@ -967,6 +973,23 @@ def run(ctx: Ctx) -> int:
                                    "rec": b["rec"], "failed": f, "observed_html": b["html"][:3000], "warnings": b["log"],
                                    "key": witness_key(b["format"], f, b["rec"])})
         nontrivial += sum(1 for x in recs if len(x["doc"]) >= 3)
+        for x in recs:
+            d = x["doc"]
+            for i, n in enumerate(d):
+                prev = d[i - 1] if i else None
+                if n["t"] == "para" and not (prev and prev["t"] in ("item", "field")):
+                    usage["AddPara"] += 1
+                elif n["t"] == "item":
+                    usage["OpenList" if n["n"] == 1 else "AddItem"] += 1
+                elif n["t"] in ("lit", "doctest", "code"):
+                    usage[{"lit": "AddLiteral", "doctest": "AddDoctest", "code": "AddCode"}[n["t"]]] += 1
+                elif n["t"] == "head":
+                    usage["OpenSection"] += 1
+                elif n["t"] == "field":
+                    usage["AddField"] += 1
+                if prev and n["t"] not in ("field", "head") and prev["reg"] == n["reg"] and \
+                        (n["lv"] - (1 if n["t"] == "item" else 0)) < prev["lv"]:
+                    usage["CloseList(fused)"] += 1
         cfg_stats.append({"cfg": pl["name"], "constants": {k: pl[k] for k in ("actions", "depth", "fields", "kinds", "blocks", "free")},
                           "documents_enumerated": enumerated, "documents_replayed": len(recs),
                           "tlc_distinct_states": r.distinct})
@@ -975,19 +998,15 @@ def run(ctx: Ctx) -> int:
     ctx.extra["parse_warning_examples"] = examples_parse
     ctx.extra["reported_not_shown_examples"] = examples_reported
 
-    # action coverage of the builder (vacuity): one small run with -coverage
-    rc = ctx.tlc("DocModel", CFG.format(actions=2, depth=2, fields=1, kinds=tla_set(["param", "ivar"]), blocks=tla_set(ALL_BLOCKS),
-                                        free="FALSE").replace("CONSTRAINT Emit\n", ""), workers=1, check=True, coverage=True, count=False)
-    ctx.extra["docmodel_action_coverage"] = {k: v for k, v in rc.coverage.items() if k[:3] in ("Add", "Ope")}
-    never = [a for a in ("AddPara", "OpenList", "AddItem", "AddLiteral", "AddDoctest", "AddCode", "OpenSection", "AddField")
-             if rc.coverage.get(a, 0) == 0]
-    ctx.extra["docmodel_actions_never_taken"] = never
+    # which builder actions the replayed documents exercise (vacuity check)
+    ctx.extra["docmodel_action_usage"] = usage
+    ctx.extra["docmodel_actions_never_taken"] = [a for a, n in usage.items() if n == 0]
 
     # ------------------------------------------------------------------ Epytext.tla <-> epytext.parse
     import multiprocessing as mp
     if ctx.quick:
         ep_cfgs = [dict(n=3, indents="{0, 2, 4}", bullets='{"u", "o1", "o2", "f"}', levels="{0, 1}"),
-                   dict(n=4, indents="{0, 2}", bullets='{"u", "f"}', levels="{0}")]
+                   dict(n=4, indents="{0, 2}", bullets='{"u", "o1", "f"}', levels="{1}")]
     else:
         ep_cfgs = [dict(n=4, indents="{0, 2, 4}", bullets='{"u", "o1", "o2", "f"}', levels="{0, 1}"),
                    dict(n=5, indents="{0, 2}", bullets='{"u", "o1", "f"}', levels="{0, 1}")]
@@ -1041,7 +1060,7 @@ def run(ctx: Ctx) -> int:
         for c, res in zip(cases, render_batch("epytext", cases)):
             ctx.traces += 1
             want = re.findall(r"\b[pqhldf]\d+\b", c["docstring"])
-            got = re.findall(r"\b[pqhldf]\d+\b", parse_html(res["html"]).all_text())
+            got = re.findall(r"\b[pqhldf]\d+\b", parse_html(res["html"]).spaced_text())
             if not pipeline_conserves(want, got, res["log"]):
                 pipeline_bad += 1
                 ctx.violation({"invariant": "PipelineConserves", "origin": "Epytext", "format": "epytext", "input": c["docstring"],
@@ -1109,7 +1128,7 @@ def replay(ctx: Ctx, path: str) -> int:
             bad.append("StructurerConserves")
     elif w.get("origin") == "Epytext":
         res = render_batch("epytext", [{"id": 0, "host": "function", "docstring": w["input"], "attrs": []}])[0]
-        if not pipeline_conserves(w["expected"], re.findall(r"\b[pqhldf]\d+\b", parse_html(res["html"]).all_text()), res["log"]):
+        if not pipeline_conserves(w["expected"], re.findall(r"\b[pqhldf]\d+\b", parse_html(res["html"]).spaced_text()), res["log"]):
             bad.append("PipelineConserves")
     else:
         rec = w["rec"]
